@@ -49,6 +49,8 @@ enum RdbOpcode {
     Hash = 0x04,
     /// Sorted set with ziplist encoding
     ZSet2 = 0x05,
+    /// Stream (ferrous encoding: marker, then per entry the ID, the field count and the field-value strings)
+    Stream = 0xF0,
 }
 
 /// RDB persistence engine
@@ -258,7 +260,7 @@ impl RdbEngine {
                         Value::Set(_) => buffer.push(RdbOpcode::Set as u8),
                         Value::Hash(_) => buffer.push(RdbOpcode::Hash as u8),
                         Value::SortedSet(_) => buffer.push(RdbOpcode::ZSet as u8),
-                        Value::Stream(_) => buffer.push(RdbOpcode::List as u8), // Streams use List opcode with marker
+                        Value::Stream(_) => buffer.push(RdbOpcode::Stream as u8),
                     }
                     
                     // Write key
@@ -580,7 +582,7 @@ impl<W: Write> RdbWriter<W> {
             }
             Value::Stream(stream) => {
                 // Serialize streams properly by saving all entries
-                self.write_byte(RdbOpcode::List as u8)?;
+                self.write_byte(RdbOpcode::Stream as u8)?;
                 self.write_string(key)?;
                 
                 // Use XRANGE to get all stream entries
@@ -872,74 +874,71 @@ impl<R: Read> RdbReader<R> {
                 let key = self.read_string()?;
                 let count = self.read_length()?;
                 
-                // Check if this is a stream marker
-                if count >= 1 {
-                    let first_element = self.read_string()?;
-                    if first_element == b"__FERROUS_STREAM_MARKER__" {
-                        // This is a stream - reconstruct it
-                        let remaining_count = count - 1;
-                        let mut entry_idx = 0;
-                        
-                        while entry_idx < remaining_count {
-                            if entry_idx + 2 >= remaining_count {
-                                break; // Not enough data for a complete entry
-                            }
-                            
-                            // Read entry ID
-                            let id_str = self.read_string()?;
-                            entry_idx += 1;
-                            
-                            // Read field count
-                            let field_count_str = self.read_string()?;
-                            entry_idx += 1;
-                            
-                            let field_count: usize = match std::str::from_utf8(&field_count_str) {
-                                Ok(s) => s.parse().unwrap_or(0),
-                                Err(_) => 0,
-                            };
-                            
-                            // Check if we have enough remaining data for all fields
-                            if entry_idx + (field_count * 2) > remaining_count {
-                                break; // Not enough data for all field-value pairs
-                            }
-                            
-                            // Read field-value pairs
-                            let mut fields = HashMap::new();
-                            for _ in 0..field_count {
-                                let field = self.read_string()?;
-                                let value = self.read_string()?;
-                                fields.insert(field, value);
-                                entry_idx += 2;
-                            }
-                            
-                            // Parse stream ID and add entry to stream
-                            if let Some(stream_id) = crate::storage::stream::StreamId::from_string(
-                                std::str::from_utf8(&id_str).unwrap_or("")
-                            ) {
-                                let _ = storage.xadd_with_id(db, key.clone(), stream_id, fields);
-                            }
-                        }
-                        
-                        if let Some(ttl) = ttl {
-                            storage.expire(db, &key, ttl)?;
-                        }
-                        return Ok(());
-                    } else {
-                        // Regular list - first element already read
-                        storage.rpush(db, key.clone(), vec![first_element])?;
-                        
-                        // Read remaining list elements
-                        for _ in 1..count {
-                            let element = self.read_string()?;
-                            storage.rpush(db, key.clone(), vec![element])?;
-                        }
-                    }
-                } else {
-                    // Empty list - do nothing
+                // Every element is a list element, whatever its bytes are
+                for _ in 0..count {
+                    let element = self.read_string()?;
+                    storage.rpush(db, key.clone(), vec![element])?;
                 }
                 
                 if let Some(ttl) = ttl {
                     storage.expire(db, &key, ttl)?;
+                }
+            }
+            op if op == RdbOpcode::Stream as u8 => {
+                let key = self.read_string()?;
+                let count = self.read_length()?;
+                
+                if count >= 1 {
+                    // The first item is the stream marker
+                    let _marker = self.read_string()?;
+                    
+                    // This is a stream - reconstruct it
+                    let remaining_count = count - 1;
+                    let mut entry_idx = 0;
+                    
+                    while entry_idx < remaining_count {
+                        if entry_idx + 2 >= remaining_count {
+                            break; // Not enough data for a complete entry
+                        }
+                        
+                        // Read entry ID
+                        let id_str = self.read_string()?;
+                        entry_idx += 1;
+                        
+                        // Read field count
+                        let field_count_str = self.read_string()?;
+                        entry_idx += 1;
+                        
+                        let field_count: usize = match std::str::from_utf8(&field_count_str) {
+                            Ok(s) => s.parse().unwrap_or(0),
+                            Err(_) => 0,
+                        };
+                        
+                        // Check if we have enough remaining data for all fields
+                        if entry_idx + (field_count * 2) > remaining_count {
+                            break; // Not enough data for all field-value pairs
+                        }
+                        
+                        // Read field-value pairs
+                        let mut fields = HashMap::new();
+                        for _ in 0..field_count {
+                            let field = self.read_string()?;
+                            let value = self.read_string()?;
+                            fields.insert(field, value);
+                            entry_idx += 2;
+                        }
+                        
+                        // Parse stream ID and add entry to stream
+                        if let Some(stream_id) = crate::storage::stream::StreamId::from_string(
+                            std::str::from_utf8(&id_str).unwrap_or("")
+                        ) {
+                            let _ = storage.xadd_with_id(db, key.clone(), stream_id, fields);
+                        }
+                    }
+                    
+                    if let Some(ttl) = ttl {
+                        storage.expire(db, &key, ttl)?;
+                    }
                 }
             }
             op if op == RdbOpcode::Set as u8 => {
